@@ -22,6 +22,10 @@ type Stats struct {
 }
 
 // Setup is called before every execution (fresh scratch directory etc.).
+// Reduced: the running exploration prunes by the dependency table (DPOR); constructs the table
+// was not validated for make the execution abort with "unsupported: ..." (never a verdict).
+var Reduced bool
+
 type Setup func()
 
 // Visit is called after every complete (not sleep-blocked / pruned) execution; returning
@@ -30,6 +34,8 @@ type Visit func(s *Sched) bool
 
 // ExploreDPOR enumerates one execution per Mazurkiewicz trace (DPOR + sleep sets).
 func ExploreDPOR(setup Setup, body func(), visit Visit, deadline time.Time) Stats {
+	Reduced = true
+	defer func() { Reduced = false }()
 	d := &DPOR{}
 	st := Stats{Mode: "dpor+sleep"}
 	t0 := time.Now()
